@@ -42,7 +42,7 @@ Definition key (r : row) : str * str * str := (r_user r, r_dsn r, r_table r).
 Definition grants_op (o : op) (k : str * str * str) (p : perm) : Prop :=
   match o with
   | OGrant u d t ch => (u, d, t) = k /\ (In (true, p) ch \/ In (true, PAdmin) ch)
-  | OCreate u d t => (u, d, t) = k
+  | OCreate u d t | OTCreate u d t => (u, d, t) = k
   | _ => False
   end.
 
@@ -93,7 +93,7 @@ Proof.
   rewrite run_snoc in Hin.
   assert (Hold : In r (rows (run ops)) -> exists o0, In o0 (ops ++ [o]) /\ grants_op o0 (key r) p).
   { intros H. destruct (IH r p H Hal) as (o0 & Ho & Hg). exists o0. split; [apply in_or_app; left; exact Ho|exact Hg]. }
-  destruct o as [d v|d|u d t ch|u d t|fu fd ft]; cbn [step rows] in Hin.
+  destruct o as [d v|d|u d t ch|u d t|fu fd ft|u d t|d t]; cbn [step rows] in Hin.
   - apply Hold, Hin.
   - apply filter_In in Hin as [Hin _]. apply Hold, Hin.
   - destruct (matching (rows (run ops)) u d t) as [|m [|m2 rest]] eqn:Em; cbn [rows] in Hin.
@@ -112,6 +112,28 @@ Proof.
   - apply in_app_or in Hin as [Hin|[<-|[]]]; [apply Hold, Hin|].
     exists (OCreate u d t). split; [apply in_or_app; right; left; reflexivity|reflexivity].
   - apply filter_In in Hin as [Hin _]. apply Hold, Hin.
+  - destruct (lookup (dsns (run ops)) d); [|apply Hold, Hin].
+    destruct (has_table (tables (run ops)) d t); [apply Hold, Hin|]. cbn [rows] in Hin.
+    apply in_app_or in Hin as [Hin|[<-|[]]]; [apply Hold, Hin|].
+    exists (OTCreate u d t). split; [apply in_or_app; right; left; reflexivity|reflexivity].
+  - destruct (lookup (dsns (run ops)) d); [|apply Hold, Hin].
+    destruct (has_table (tables (run ops)) d t); [|apply Hold, Hin]. cbn [rows] in Hin.
+    apply filter_In in Hin as [Hin _]. apply Hold, Hin.
+Qed.
+
+(* a dropped table leaves no grant behind: after DeleteTable succeeded nobody but administrators passes *)
+Lemma drop_clears st su d t p :
+  dot_free d = true -> lookup (dsns st) d = Some true -> has_table (tables st) d t = true ->
+  row_request (step st (OTDrop d t)) su false d t p = Some false.
+Proof.
+  intros Hd Hl Ht. unfold row_request, authorized. cbn [step]. rewrite Hl, Ht. cbn [dsns rows]. rewrite Hl.
+  rewrite (decode_encode d t Hd), Hl, str_eqb_refl. cbn [andb orb].
+  assert (Hm : matching (filter (fun r => negb (str_eqb (r_dsn r) d && str_eqb (r_table r) t)) (rows st)) su d t = []).
+  { unfold matching. induction (rows st) as [|r rs IH]; [reflexivity|]. cbn [filter].
+    destruct (str_eqb (r_dsn r) d && str_eqb (r_table r) t) eqn:E; cbn [negb]; [exact IH|]. cbn [filter].
+    unfold key_eqb. destruct (str_eqb (r_user r) su); cbn [andb]; [|exact IH].
+    rewrite E. exact IH. }
+  rewrite Hm. reflexivity.
 Qed.
 
 Lemma records_row st u d t p : records st u d t p = true ->
